@@ -103,9 +103,11 @@ func VerifNewManager(machinep, maxp int, maxLoad float64, fastKeepalive ...bool)
 	system.KeepaliveRpcTimeout = time.Second
 	if len(fastKeepalive) > 0 && fastKeepalive[0] {
 		// cases that kill machines: the loss must be noticed quickly
-		system.KeepalivePeriod = 200 * time.Millisecond
-		system.KeepaliveTimeout = time.Second
-		system.KeepaliveRpcTimeout = 200 * time.Millisecond
+		// (but a loaded sandbox must not make a live machine miss its keepalives: 200ms / 1s did, in a thorough-tier run
+		// that shared the sandbox with other sweeps)
+		system.KeepalivePeriod = 300 * time.Millisecond
+		system.KeepaliveTimeout = 4 * time.Second
+		system.KeepaliveRpcTimeout = 1500 * time.Millisecond
 	}
 	b := bigmachine.Start(system)
 	ctx, ctxcancel := context.WithCancel(context.Background())
